@@ -556,10 +556,15 @@ theorem annual_network_cost_code_eq_doc (pi eff : Rat) (t : CostTables) (exp ln 
     evalO (costEnv pi eff t exp ln rpow n) row Gen.annual_network_cost
       = some (annualNetworkCost pi t (costItems eff exp ln rpow n)) := by
   obtain ⟨ht1, ht2, ht3, ht4⟩ := ht
+  -- the loops of the source in canonical order (tanks, pipes, head pumps, power pumps, valves), whatever their order there
   apply evalO_eq_some
-  · simp only [Gen.annual_network_cost, ok, eval, evalC, costEnv, List.all_map, Function.comp_def, Bool.and_eq_true,
+  · rw [ok_sortedAddends]
+    simp only [sortedAddends, Gen.annual_network_cost, addends, List.cons_append, List.nil_append, List.insertionSort,
+      List.orderedInsert, loopLe, loopKey, Nat.le_refl, Nat.zero_le, Nat.reduceLeDiff, if_true, if_false, List.foldr,
+      List.all_cons, List.all_nil,
+      ok, eval, evalC, costEnv, List.all_map, Function.comp_def, Bool.and_eq_true,
       List.all_eq_true, Bool.true_and, Bool.and_true, Bool.not_eq_true', decide_eq_false_iff_not, Bool.cond_eq_ite]
-    refine ⟨⟨⟨⟨?_, ?_⟩, ?_⟩, ?_⟩, ?_⟩
+    refine ⟨?_, ?_, ?_, ?_, ?_⟩
     · rintro ⟨g, lo, hi⟩ hx
       cases g with
       | cyl d => simp [tankRow, ht1]
@@ -574,9 +579,13 @@ theorem annual_network_cost_code_eq_doc (pi eff : Rat) (t : CostTables) (exp ln 
       simpa using h1
     · intro x _; simp [ht4, he]
     · intro x _; split_ifs <;> simp [ht3]
-  · simp only [Gen.annual_network_cost, eval, evalC, costEnv, costItems, annualNetworkCost, List.map_append, List.map_map,
-      lsum_append, zero_add, Function.comp_def, Bool.cond_eq_ite]
-    refine congrArg₂ (· + ·) (congrArg₂ (· + ·) (congrArg₂ (· + ·) (congrArg₂ (· + ·) ?_ ?_) ?_) ?_) ?_
+  · rw [eval_sortedAddends]
+    simp only [sortedAddends, Gen.annual_network_cost, addends, List.cons_append, List.nil_append, List.insertionSort,
+      List.orderedInsert, loopLe, loopKey, Nat.le_refl, Nat.zero_le, Nat.reduceLeDiff, if_true, if_false, List.foldr,
+      List.map_cons, List.map_nil, lsum_cons, lsum_nil, add_zero,
+      eval, evalC, costEnv, costItems, annualNetworkCost, List.map_append, List.map_map,
+      lsum_append, zero_add, Function.comp_def, Bool.cond_eq_ite, add_assoc]
+    refine congrArg₂ (· + ·) ?_ (congrArg₂ (· + ·) ?_ (congrArg₂ (· + ·) ?_ (congrArg₂ (· + ·) ?_ ?_)))
     · apply lsum_map_congr
       rintro ⟨g, lo, hi⟩ _
       cases g <;> simp [tankRow, itemCost, lookup, tankConstructionVolume]
